@@ -274,6 +274,13 @@ func init() {
 		e.unwind = e.concInt(a[0])
 		return nil
 	})
+	reg("UnwindAssume", func(e *Engine, fn *ssa.Function, a []Value) Value {
+		// stated assumption: no loop forks symbolically more than n times (paths that would are cut)
+		e.unwind = e.concInt(a[0])
+		e.unwindPrune = true
+		e.res.Stubs[fmt.Sprintf("assumption: loops fork at most %d times (UnwindAssume)", e.unwind)]++
+		return nil
+	})
 	reg("Protect", func(e *Engine, fn *ssa.Function, a []Value) Value {
 		s := a[0].(Slice)
 		if s.O != nil {
